@@ -9,7 +9,7 @@ import (
 
 func init() {
 	register(&CheckDef{ID: "C03", Level: "exploration", Engine: "A", Draw: drawC03,
-		Rule: "1-3 raw-frame HTTP/2 clients, each sending a generated legal session: SETTINGS of any content (unknown / duplicate ids, empty), 0-n WINDOW_UPDATE, PRIORITY on any stream, HEADERS with/without priority, 7 pseudo-header orders, header blocks cut into CONTINUATION frames, request bodies and trailers, PING / unknown frame types in between, further SETTINGS / WINDOW_UPDATE / PRIORITY between and after requests; frames grouped into TLS writes by draw and delivered by the controller; -max-h2-priority-frames in {0,1,k-1,k,k+1,default}; plus an HTTP/1.1 client in the same world. Oracle: header in { fingerprint(prefix j) : own HEADERS <= j <= frames written before the back-end saw the request }. Non-trivial: at least one request reached the back-end. Distinct: distinct controller action-label sequences."})
+		Rule: "1-3 raw-frame HTTP/2 clients, each sending a generated legal session: SETTINGS of any content (unknown / duplicate ids, empty), 0-n WINDOW_UPDATE, PRIORITY on any stream, HEADERS with/without priority, 7 pseudo-header orders, header blocks cut into CONTINUATION frames, request bodies and trailers, PING / unknown frame types in between, further SETTINGS / WINDOW_UPDATE / PRIORITY between and after requests; frames grouped into TLS writes by draw and delivered by the controller; -max-h2-priority-frames in {0,1,k-1,k,k+1,default}; 1%: 9990-10030 PRIORITY frames ahead of the requests under a limit of 10010 / 20000 / 2^30; plus an HTTP/1.1 client in the same world. Oracle: header in { fingerprint(prefix j) : own HEADERS <= j <= frames written before the back-end saw the request }. Non-trivial: at least one request reached the back-end. Distinct: distinct controller action-label sequences."})
 }
 
 type c03Aux struct {
@@ -44,6 +44,7 @@ func drawC03(t *rapid.T) *Case {
 	n := rapid.IntRange(1, 3).Draw(t, "nclients")
 	var metas []*ClientMeta
 	maxPrio := 0
+	hugeLimit := 0
 	for ci := 0; ci < n; ci++ {
 		if ci > 0 && drawBool(t, "h1client", 35) {
 			// a connection that did not negotiate HTTP/2: ALPN http/1.1, or no ALPN at all
@@ -57,7 +58,14 @@ func drawC03(t *rapid.T) *Case {
 			continue
 		}
 		hello := DrawHello(t, HelloOpts{Proto: "h2"})
-		sc := DrawH2Script(t, H2GenOpts{ClientID: ci, MaxReqs: 4, Bodies: true, ExtraMax: 3, TailFrames: true})
+		burst := 0
+		if ci == 0 && drawBool(t, "hugeprio", 1) {
+			// more priority entries than the default limit of the flag, under a larger limit:
+			// "cut to the first N" holds for every N, not only below 10000
+			burst = rapid.IntRange(9990, 10030).Draw(t, "hugeprion")
+			hugeLimit = []int{20000, 10010, 1 << 30}[rapid.IntRange(0, 2).Draw(t, "hugelimit")]
+		}
+		sc := DrawH2Script(t, H2GenOpts{ClientID: ci, MaxReqs: 4, Bodies: true, ExtraMax: 3, TailFrames: true, PrioBurst: burst})
 		cp := &ClientPlan{ID: ci, Addr: drawAddr(t, ci), Hello: hello, Steps: sc.Steps(true)}
 		if drawBool(t, "seg", 30) {
 			cp.Seg = SegPlan{Profile: "rand"}
@@ -74,6 +82,9 @@ func drawC03(t *rapid.T) *Case {
 		}
 	}
 	p.Args, aux.N = drawPrioLimit(t, maxPrio)
+	if hugeLimit > 0 {
+		p.Args, aux.N = []string{"-max-h2-priority-frames", fmt.Sprint(hugeLimit)}, hugeLimit
+	}
 	p.YieldInjector = drawBool(t, "yield", 50)
 	p.Fences = drawBool(t, "fences", 30)
 	p.Tape, p.Tail = drawTape(t, 96)
